@@ -157,6 +157,10 @@ Definition pubmat_len_prefix (m : pubmat) : Z :=
    in __privfields__ order (MPI(0) each while the key is locked); s_chk = chksum *)
 Record secpart := { s_usage : Z; s_s2k : bytes; s_enc : bytes; s_priv : list Z; s_chk : bytes }.
 
+(* The layout below is PrivKey.__bytearray__ (emission).  Repairs 7c47922 (DSAPriv/ElGPriv.parse: with usage 255 the two
+   checksum octets stay inside encbytes) and 05bf06b (String2Key.__bytearray__ writes the serial-length octet of a GNU
+   smartcard stub even when the serial is empty) changed which FIELD VALUES a parsed packet holds and which octets
+   String2Key emits; both arrive here as the inputs s_enc / s_chk / s_s2k, the composition of the tail is unchanged. *)
 (* String2Key.__bool__ *)
 Definition s2k_on (sp : secpart) : bool := (s_usage sp =? 254) || (s_usage sp =? 255).
 Definition s2k_bytes (sp : secpart) : bytes := s_usage sp :: (if s2k_on sp then s_s2k sp else []).
@@ -189,13 +193,32 @@ Definition key_tag (k : keypkt) : Z :=
   | None, false => 6 | None, true => 14 | Some _, false => 5 | Some _, true => 7
   end.
 
-(* PrivKeyV4.pubkey(): created, pkalg, __pubfields__, oid, kdf — nothing else.  Opaque material has no
-   __pubfields__: the fresh OpaquePubKey keeps its empty `data` *)
-Definition pub_mat (m : pubmat) : pubmat := match m with POpaque _ => POpaque [] | _ => m end.
-Definition pubkey_pkt (k : keypkt) : keypkt :=
-  {| k_sub := k_sub k; k_created := k_created k; k_alg := k_alg k; k_mat := pub_mat (k_mat k); k_sec := None |}.
+(* PrivKeyV4.pubkey() after repair 3c1c8c6:
+     if isinstance(self.keymaterial, OpaquePrivKey): raise NotImplementedError      (None below)
+     otherwise a fresh PubKeyV4 / PubSubKeyV4 with created, pkalg, __pubfields__, oid, kdf - nothing else.
+   For a supported algorithm the copied fields ARE the public material (every constructor argument of pubmat).
+   A packet that is public already has no pubkey() method; PGPKey.pubkey returns such a key itself
+   (`if self.is_public: return self`): pub_half of a public packet is that packet. *)
+Definition is_opaque (m : pubmat) : bool := match m with POpaque _ => true | _ => false end.
+Definition pub_half (k : keypkt) : keypkt :=
+  {| k_sub := k_sub k; k_created := k_created k; k_alg := k_alg k; k_mat := k_mat k; k_sec := None |}.
+Definition opaque_private (k : keypkt) : bool := is_private k && is_opaque (k_mat k).
+Definition pubkey_pkt (k : keypkt) : option keypkt := if opaque_private k then None else Some (pub_half k).
 
-Definition pub_packet_body (k : keypkt) : bytes := key_body (pubkey_pkt k).
+(* the code BEFORE that repair (kept for the refutation theorems): a total function.  Opaque material has no
+   __pubfields__: the fresh OpaquePubKey kept its empty `data` *)
+Definition pub_mat_old (m : pubmat) : pubmat := match m with POpaque _ => POpaque [] | _ => m end.
+Definition pubkey_pkt_old (k : keypkt) : keypkt :=
+  {| k_sub := k_sub k; k_created := k_created k; k_alg := k_alg k; k_mat := pub_mat_old (k_mat k); k_sec := None |}.
+(* PubKeyV4.__copy__ -> copy.copy(self.keymaterial) -> MPIs.__copy__ before the same repair: the MPI fields, oid and kdf
+   were carried over, the octets of OpaquePubKey.data were not (now OpaquePubKey.__copy__ copies them: a copy has the
+   same field values, see Fingerprint.v OpCopy) *)
+Definition copy_pkt_old (k : keypkt) : keypkt :=
+  {| k_sub := k_sub k; k_created := k_created k; k_alg := k_alg k; k_mat := pub_mat_old (k_mat k); k_sec := k_sec k |}.
+
+(* body of the public twin; None = pubkey() refuses *)
+Definition pub_packet_body (k : keypkt) : option bytes :=
+  match pubkey_pkt k with Some p => Some (key_body p) | None => None end.
 Definition sec_packet_body (k : keypkt) : bytes := key_body k.
 
 (* ---------- state changes of the secret part (nothing else is written by these methods) ---------- *)
@@ -334,6 +357,9 @@ Definition wf_pubmat (m : pubmat) : Prop :=
   | PECDH c pt kh ke => wf_point pt /\ 0 <= kh < 256 /\ 0 <= ke < 256
   | POpaque _ => False     (* the supported algorithms; opaque material has its own theorems *)
   end.
+(* the nominal public length IS the length of the public material: true of every well-formed supported material
+   (theorem publen_correct) and of opaque material by definition of OpaquePubKey.__len__ *)
+Definition real_publen (k : keypkt) : Prop := Z.of_nat (length (pubmat_bytes (k_mat k))) = publen k.
 Definition wf_pub (k : keypkt) : Prop :=
   0 <= k_created k < 4294967296 /\ 0 <= k_alg k < 256 /\ wf_pubmat (k_mat k).
 
